@@ -194,9 +194,34 @@ def digest(obj):
     return (type(obj).__name__, len(b), hashlib.sha256(b).hexdigest()[:16])
 
 
+HANDLER_EXCS = ['KeyError', 'TimeoutError', 'MpTimeout', 'queue.Empty', 'ConnectionResetError', 'EOFError', 'ValueError', 'Boom', 'asyncio.QueueEmpty',
+                'asyncio.InvalidStateError', 'BrokenPipeError', 'LookupError']
+
+
+def handler_exc_class(name):
+    """Exception classes a user's handler / worker may raise -- among them the ones the library itself uses for control flow
+    (time-outs of its polling loops, empty queues, broken connections)."""
+    import asyncio
+    import queue
+
+    if name is True:
+        return KeyError
+    if name == 'MpTimeout':
+        from mpservice._common import TimeoutError as MpTimeout
+
+        return MpTimeout
+    if name == 'Boom':
+        return Boom
+    if name.startswith('queue.'):
+        return getattr(queue, name.split('.')[1])
+    if name.startswith('asyncio.'):
+        return getattr(asyncio, name.split('.')[1])
+    return getattr(__import__('builtins'), name)
+
+
 def c18_server(path, ready_path=None):
     """Socket server process.  Routes:
-    /tagged  data = (tag, latency_s, fail, payload) -> (tag, digest(payload)) after the latency, or KeyError(tag)
+    /tagged  data = (tag, latency_s, fail, payload) -> (tag, digest(payload)) after the latency, or <exception class named by fail>(tag)
     /raw     data = payload -> digest(payload)
     /echo    data = payload -> payload
     /noarg   (no data)      -> 'noarg-ok'"""
@@ -211,7 +236,7 @@ def c18_server(path, ready_path=None):
         else:
             await asyncio.sleep(0)
         if fail:
-            raise KeyError(tag)  # SITE-MARK-C18 handler
+            raise handler_exc_class(fail)(tag)  # SITE-MARK-C18 handler
         return (tag, digest(payload))
 
     async def raw(data):
